@@ -65,9 +65,10 @@ P_kinds == { P(FALSE, <<1, 5>>, 7, "sciP"), P(FALSE, <<1, 2, 3, 4, 5, 6>>, -17, 
              P(FALSE, <<1>>, 3, "pow10"), P(FALSE, <<1>>, 0, "pow10"), P(FALSE, <<1, 5>>, 0, "fix"),
              PQ(<<1>>, 8, "sci", "/molar/second"), PQ(<<2, 5>>, 0, "fix", "/second"), PQ(<<1, 2, 3, 4, 5>>, -4, "sciP", "*molar"),
              PQ(<<3>>, 0, "int", "/molar**2/second"), PS("k"), PS("k_fwd1") }
-P_fk == P_few \cup P_kinds
+P_zero == { [kind |-> "num", v |-> DZero, style |-> "zero"], [kind |-> "num", v |-> DZero, style |-> "zerof"] }
+P_fk == P_few \cup P_kinds \cup P_zero
 P_ak == P_all \cup P_kinds
-P_cfg == { P(FALSE, <<1, 5>>, 0, "fix"), P(FALSE, <<1, 2, 3, 4, 5, 6>>, -17, "sci"), PS("k"),
+P_cfg == { [kind |-> "num", v |-> DZero, style |-> "zero"], P(FALSE, <<1, 5>>, 0, "fix"), P(FALSE, <<1, 2, 3, 4, 5, 6>>, -17, "sci"), PS("k"),
            PQ(<<1>>, 8, "sci", "/molar/second") }
 Fm_all == {"list", "tuple", "set", "dict", "str", "alias"}
 Fm_la == {"list", "alias"}
@@ -76,13 +77,14 @@ Fm_list == {"list"}
 Cfg(spc, eol, g, ct, ms, dq) == [DefaultCfg EXCEPT !.spc = spc, !.eol = eol, !.gmode = g, !.ctoks = ct, !.msfk = ms, !.dq = dq]
 ArgP == [some |-> TRUE, v |-> Dec(FALSE, <<2, 5>>, 0)]
 Cfg_none == {}
-Cfg_read == { Cfg("wide", "lf", "default", "default", FALSE, FALSE), Cfg("tight", "lf", "default", "default", FALSE, TRUE),
+Cfg_dc == [DefaultCfg EXCEPT !.chk = "dontcheck"]
+Cfg_read == { Cfg_dc, Cfg("wide", "lf", "default", "default", FALSE, FALSE), Cfg("tight", "lf", "default", "default", FALSE, TRUE),
               Cfg("normal", "lfnt", "default", "default", FALSE, FALSE), Cfg("normal", "crlf", "default", "default", FALSE, FALSE),
               Cfg("normal", "lf", "empty", "default", FALSE, FALSE), Cfg("normal", "lf", "none", "default", FALSE, FALSE),
               Cfg("wide", "crlf", "none", "default", FALSE, TRUE),
               [DefaultCfg EXCEPT !.argname = "n1"], [DefaultCfg EXCEPT !.argref = "r9", !.argparam = ArgP],
               [DefaultCfg EXCEPT !.argname = "n1", !.argref = "r9", !.gmode = "none", !.argparam = ArgP] }
-Cfg_sys == { Cfg("normal", "lf", "default", "custom", FALSE, FALSE), Cfg("wide", "crlf", "default", "custom", FALSE, FALSE),
+Cfg_sys == { Cfg_dc, Cfg("normal", "lf", "default", "custom", FALSE, FALSE), Cfg("wide", "crlf", "default", "custom", FALSE, FALSE),
              Cfg("normal", "lfnt", "default", "default", TRUE, FALSE), Cfg("normal", "lf", "none", "custom", TRUE, FALSE) }
 Cfg_one == { Cfg("wide", "crlf", "default", "custom", FALSE, TRUE) }
 C_two == {Cm("# a comment", "#"), Cm("// note", "//")}
@@ -95,9 +97,10 @@ SL_coefs_t == [Keys |-> K1p, AllowedKeys |-> None, AllowedModes |-> No, AllowedF
 SL_config_q == [Keys |-> K2b, AllowedKeys |-> A_AB2, AllowedModes |-> No, AllowedForms |-> Fm_list, Forms |-> {"bare", "n"}, IntCoefs |-> I_2, DecCoefs |-> None, InactCoefs |-> I_2, MaxReac |-> 1, MaxProd |-> 1, MaxInact |-> 1, Arrows |-> {"->"}, Params |-> P_cfg, Kws |-> W_ref, MaxLines |-> 1, Comments |-> None, MaxComments |-> 0, FaultKinds |-> None, PrintOpts |-> O_two, Configs |-> Cfg_read]
 SL_config_t == [Keys |-> K2b, AllowedKeys |-> A_AB2, AllowedModes |-> YesNo, AllowedForms |-> Fm_list, Forms |-> {"bare", "n"}, IntCoefs |-> I_2, DecCoefs |-> None, InactCoefs |-> I_2, MaxReac |-> 1, MaxProd |-> 1, MaxInact |-> 1, Arrows |-> {"->", "="}, Params |-> P_cfg, Kws |-> W_all, MaxLines |-> 1, Comments |-> None, MaxComments |-> 0, FaultKinds |-> None, PrintOpts |-> O_two, Configs |-> Cfg_read]
 SL_configsys_q == [Keys |-> K2, AllowedKeys |-> A_AB2, AllowedModes |-> YesNo, AllowedForms |-> Fm_la, Forms |-> {"bare"}, IntCoefs |-> None, DecCoefs |-> None, InactCoefs |-> None, MaxReac |-> 1, MaxProd |-> 1, MaxInact |-> 0, Arrows |-> {"->"}, Params |-> P_one, Kws |-> None, MaxLines |-> 2, Comments |-> C_tok, MaxComments |-> 1, FaultKinds |-> F_cmt, PrintOpts |-> O_two, Configs |-> Cfg_sys]
-SL_configsys_t == [Keys |-> K3, AllowedKeys |-> A_AB2, AllowedModes |-> YesNo, AllowedForms |-> Fm_la, Forms |-> {"bare"}, IntCoefs |-> None, DecCoefs |-> None, InactCoefs |-> None, MaxReac |-> 1, MaxProd |-> 1, MaxInact |-> 0, Arrows |-> {"->", "="}, Params |-> P_one, Kws |-> None, MaxLines |-> 2, Comments |-> C_tok, MaxComments |-> 1, FaultKinds |-> F_cmt, PrintOpts |-> O_two, Configs |-> Cfg_sys]
+SL_configsys_t == [Keys |-> K2, AllowedKeys |-> A_AB2, AllowedModes |-> YesNo, AllowedForms |-> Fm_la, Forms |-> {"bare"}, IntCoefs |-> None, DecCoefs |-> None, InactCoefs |-> None, MaxReac |-> 1, MaxProd |-> 1, MaxInact |-> 0, Arrows |-> {"->", "="}, Params |-> P_one, Kws |-> None, MaxLines |-> 2, Comments |-> C_tok, MaxComments |-> 1, FaultKinds |-> F_cmt, PrintOpts |-> O_two, Configs |-> Cfg_sys]
 SL_cover == [Keys |-> K2b, AllowedKeys |-> A_AB, AllowedModes |-> Yes, AllowedForms |-> Fm_list, Forms |-> {"bare"}, IntCoefs |-> I_2, DecCoefs |-> None, InactCoefs |-> I_2, MaxReac |-> 1, MaxProd |-> 1, MaxInact |-> 1, Arrows |-> {"->"}, Params |-> P_one, Kws |-> W_ref, MaxLines |-> 2, Comments |-> C_two, MaxComments |-> 1, FaultKinds |-> F_all4, PrintOpts |-> O_all, Configs |-> Cfg_one]
 SL_faults2_q == [Keys |-> K3, AllowedKeys |-> A_AB2, AllowedModes |-> Yes, AllowedForms |-> Fm_all, Forms |-> {"bare", "n"}, IntCoefs |-> I_2, DecCoefs |-> None, InactCoefs |-> I_2, MaxReac |-> 1, MaxProd |-> 1, MaxInact |-> 1, Arrows |-> {"->", "="}, Params |-> None, Kws |-> None, MaxLines |-> 1, Comments |-> None, MaxComments |-> 0, FaultKinds |-> F_all, PrintOpts |-> O_two, Configs |-> Cfg_none]
+SL_emptylist_q == [Keys |-> K3, AllowedKeys |-> None, AllowedModes |-> Yes, AllowedForms |-> {"list", "tuple", "set", "dict"}, Forms |-> {"bare", "n"}, IntCoefs |-> I_2, DecCoefs |-> None, InactCoefs |-> I_2, MaxReac |-> 1, MaxProd |-> 1, MaxInact |-> 1, Arrows |-> {"->", "="}, Params |-> None, Kws |-> None, MaxLines |-> 1, Comments |-> None, MaxComments |-> 0, FaultKinds |-> F_unk, PrintOpts |-> O_two, Configs |-> Cfg_none]
 SL_faults_q == [Keys |-> K3, AllowedKeys |-> A_AB, AllowedModes |-> Yes, AllowedForms |-> Fm_list, Forms |-> {"bare", "n"}, IntCoefs |-> I_2, DecCoefs |-> None, InactCoefs |-> I_2, MaxReac |-> 2, MaxProd |-> 1, MaxInact |-> 1, Arrows |-> {"->", "="}, Params |-> None, Kws |-> None, MaxLines |-> 1, Comments |-> None, MaxComments |-> 0, FaultKinds |-> F_all, PrintOpts |-> O_two, Configs |-> Cfg_none]
 SL_faults_t == [Keys |-> K3, AllowedKeys |-> A_AB, AllowedModes |-> YesNo, AllowedForms |-> Fm_list, Forms |-> {"bare", "n"}, IntCoefs |-> I_2, DecCoefs |-> None, InactCoefs |-> I_2, MaxReac |-> 2, MaxProd |-> 1, MaxInact |-> 1, Arrows |-> {"->", "="}, Params |-> P_one, Kws |-> None, MaxLines |-> 1, Comments |-> None, MaxComments |-> 0, FaultKinds |-> F_all, PrintOpts |-> O_two, Configs |-> Cfg_none]
 SL_keys_q == [Keys |-> K6, AllowedKeys |-> None, AllowedModes |-> No, AllowedForms |-> Fm_list, Forms |-> {"bare", "n"}, IntCoefs |-> I_2, DecCoefs |-> None, InactCoefs |-> I_2, MaxReac |-> 2, MaxProd |-> 1, MaxInact |-> 1, Arrows |-> {"->"}, Params |-> None, Kws |-> None, MaxLines |-> 1, Comments |-> None, MaxComments |-> 0, FaultKinds |-> None, PrintOpts |-> O_two, Configs |-> Cfg_none]
@@ -110,6 +113,6 @@ SL_system2_t == [Keys |-> K2b, AllowedKeys |-> None, AllowedModes |-> No, Allowe
 SL_system3_q == [Keys |-> K2b, AllowedKeys |-> None, AllowedModes |-> No, AllowedForms |-> Fm_list, Forms |-> {"bare"}, IntCoefs |-> I_2, DecCoefs |-> None, InactCoefs |-> None, MaxReac |-> 1, MaxProd |-> 1, MaxInact |-> 0, Arrows |-> {"="}, Params |-> P_one, Kws |-> W_name, MaxLines |-> 2, Comments |-> None, MaxComments |-> 0, FaultKinds |-> None, PrintOpts |-> O_all, Configs |-> Cfg_none]
 SL_system_q == [Keys |-> K2b, AllowedKeys |-> None, AllowedModes |-> No, AllowedForms |-> Fm_list, Forms |-> {"bare"}, IntCoefs |-> I_2, DecCoefs |-> None, InactCoefs |-> None, MaxReac |-> 1, MaxProd |-> 1, MaxInact |-> 0, Arrows |-> {"->", "="}, Params |-> P_one, Kws |-> W_name, MaxLines |-> 2, Comments |-> C_q, MaxComments |-> 1, FaultKinds |-> None, PrintOpts |-> O_all, Configs |-> Cfg_none]
 SL_system_t == [Keys |-> K2b, AllowedKeys |-> None, AllowedModes |-> No, AllowedForms |-> Fm_list, Forms |-> {"bare"}, IntCoefs |-> None, DecCoefs |-> None, InactCoefs |-> None, MaxReac |-> 1, MaxProd |-> 1, MaxInact |-> 0, Arrows |-> {"->", "="}, Params |-> P_one, Kws |-> None, MaxLines |-> 3, Comments |-> C_t, MaxComments |-> 1, FaultKinds |-> None, PrintOpts |-> O_all, Configs |-> Cfg_none]
-AllSlices == ("coefs_q" :> SL_coefs_q) @@ ("coefs_t" :> SL_coefs_t) @@ ("config_q" :> SL_config_q) @@ ("config_t" :> SL_config_t) @@ ("configsys_q" :> SL_configsys_q) @@ ("configsys_t" :> SL_configsys_t) @@ ("cover" :> SL_cover) @@ ("faults2_q" :> SL_faults2_q) @@ ("faults_q" :> SL_faults_q) @@ ("faults_t" :> SL_faults_t) @@ ("keys_q" :> SL_keys_q) @@ ("keys_t" :> SL_keys_t) @@ ("params_q" :> SL_params_q) @@ ("params_t" :> SL_params_t) @@ ("pkinds_q" :> SL_pkinds_q) @@ ("pkinds_t" :> SL_pkinds_t) @@ ("system2_t" :> SL_system2_t) @@ ("system3_q" :> SL_system3_q) @@ ("system_q" :> SL_system_q) @@ ("system_t" :> SL_system_t)
-QuickNames == {"keys_q", "coefs_q", "pkinds_q", "system_q", "config_q", "configsys_q", "faults2_q"}
+AllSlices == ("emptylist_q" :> SL_emptylist_q) @@ ("coefs_q" :> SL_coefs_q) @@ ("coefs_t" :> SL_coefs_t) @@ ("config_q" :> SL_config_q) @@ ("config_t" :> SL_config_t) @@ ("configsys_q" :> SL_configsys_q) @@ ("configsys_t" :> SL_configsys_t) @@ ("cover" :> SL_cover) @@ ("faults2_q" :> SL_faults2_q) @@ ("faults_q" :> SL_faults_q) @@ ("faults_t" :> SL_faults_t) @@ ("keys_q" :> SL_keys_q) @@ ("keys_t" :> SL_keys_t) @@ ("params_q" :> SL_params_q) @@ ("params_t" :> SL_params_t) @@ ("pkinds_q" :> SL_pkinds_q) @@ ("pkinds_t" :> SL_pkinds_t) @@ ("system2_t" :> SL_system2_t) @@ ("system3_q" :> SL_system3_q) @@ ("system_q" :> SL_system_q) @@ ("system_t" :> SL_system_t)
+QuickNames == {"keys_q", "coefs_q", "pkinds_q", "system_q", "config_q", "configsys_q", "faults2_q", "emptylist_q"}
 =============================================================================
